@@ -15,6 +15,10 @@ Primitive semantics (DESIGN.md §2 / appendix C):
   socket: accept iff backlog non-empty; connect iff a listener exists; recv yields only when it
           would block (enabled iff data or peer closed); sendall/close always
   Thread.start always; join iff the target finished; is_alive always; time.sleep always
+  TIMED waits (Event.wait / Thread.join / Queue.get / Barrier.wait with a timeout): always enabled — "however long any
+          one thread is delayed" means a timeout may always expire first; resumed while the condition is false = expiry
+  PROCESS EXIT: the table manager's threads are daemons; when its main thread ends, every thread it started that has not
+          finished is killed (never runs again) and all server-side connections are closed (Sched.killed lists them)
 """
 import collections
 import queue as _queue_mod
@@ -62,6 +66,10 @@ class CT:
         self.finished = False
         self.exc = None
         self.ops = []          # message-level op log of this thread (kind, object label, payload)
+        self.killed = False    # died with its process (daemon thread, main thread ended)
+        self.nyield = 0        # yield points passed so far
+        self.ops_at = []       # nyield at the time of each logged op (parallel to ops)
+        self.parent = None     # the controlled thread that started it (None for root threads)
 
 
 class Sched:
@@ -78,6 +86,8 @@ class Sched:
         self.result = None
         self.deadlock_info = None
         self.labels = {}               # object -> label counters
+        self.killed = []               # labels of daemon threads killed by the exit of their process
+        self.process_mains = set()     # labels of root threads whose end is the end of a process
         self.counter = collections.Counter()
 
     # ---- registration
@@ -96,10 +106,12 @@ class Sched:
             ct.sem.acquire()
             sched.by_ident[threading.get_ident()] = ct
             try:
-                if sched.aborting:
+                if sched.aborting or ct.killed:
                     return
                 ct.pending = None
                 orig_run()
+                # a thread may be held up between its last synchronisation step and its end (is_alive / join see it)
+                sched.yield_op(Op('Thread.exit', None))
             except SchedAbort:
                 pass
             except BaseException as e:       # noqa: an exception of the code under test is an observation
@@ -121,12 +133,17 @@ class Sched:
         ct = self.cur()
         if ct is None:
             return                      # not a controlled thread: primitives act immediately
-        if self.aborting:
+        if self.aborting or ct.killed:
             raise SchedAbort()          # unwinding (e.g. a close() in a finally block) must not park again
+        ct.nyield += 1
+        inj = getattr(self, 'inject', None)
+        if inj and inj.get('op') == 'yield' and inj.get('thread') == ct.label and inj.get('k') == ct.nyield:
+            # the operator's Ctrl-C delivered just before this thread's k-th synchronisation step
+            raise KeyboardInterrupt('operator interrupt (injected by the harness)')
         ct.pending = op
         self.wake.release()
         ct.sem.acquire()
-        if self.aborting:
+        if self.aborting or ct.killed:
             raise SchedAbort()
         ct.pending = None
 
@@ -134,6 +151,7 @@ class Sched:
         ct = self.cur()
         if ct is not None:
             ct.ops.append((kind, obj_label, payload))
+            ct.ops_at.append(ct.nyield)
 
     # ---- the scheduling loop (runs in the harness thread)
     def run(self):
@@ -155,6 +173,7 @@ class Sched:
                     self.abort()
                     return self.result
             first = False
+            self._process_exit()
             live = [ct for ct in self.threads if not ct.finished]
             if not live:
                 self.result = 'DONE'
@@ -175,6 +194,27 @@ class Sched:
             self.schedule.append(ct.label)
             last = ct
             ct.sem.release()
+
+    def _descends(self, ct, root):
+        while ct is not None:
+            if ct is root:
+                return True
+            ct = ct.parent
+        return False
+
+    def _process_exit(self):
+        """a process whose main thread has ended takes its daemon threads and its sockets with it"""
+        for root in self.threads:
+            if root.label in self.process_mains and root.finished and not getattr(root, 'exited', False):
+                root.exited = True
+                for ct in self.threads:
+                    if ct is not root and not ct.finished and self._descends(ct, root):
+                        ct.killed = True
+                        self.killed.append(ct.label)
+                        ct.sem.release()
+                        self.wake.acquire()         # it unwinds (SchedAbort) and reports back
+                for conn in NET.conns:
+                    conn.server_closed = True
 
     def abort(self):
         self.aborting = True
@@ -223,11 +263,14 @@ class CEvent:
     def wait(self, timeout=None):
         s = _CURRENT
         if s and s.cur() is not None:
-            op = Op('Event.wait', self, enabled=lambda: self._flag)
+            op = Op('Event.wait', self, enabled=(lambda: self._flag) if timeout is None else (lambda: True))
             self._waiters.append(op)
             s.yield_op(op)
             if op in self._waiters:
                 self._waiters.remove(op)
+            if timeout is not None and not (self._flag or op.released):
+                s.log('wait-timeout', self.label)
+                return False
             s.log('wait', self.label)
             return True
         return self._flag
@@ -260,7 +303,13 @@ class CBarrier:
             self._count = 0
             self._gen += 1
         if s:
-            s.yield_op(Op('Barrier.depart', self, enabled=lambda: self._gen > gen))
+            s.yield_op(Op('Barrier.depart', self,
+                          enabled=(lambda: self._gen > gen) if timeout is None else (lambda: True)))
+            if timeout is not None and not self._gen > gen:
+                s.log('depart-timeout', self.label)       # an expired Barrier.wait breaks the barrier
+                self._break_current()
+                self._aborted = True
+                raise threading.BrokenBarrierError
             s.log('depart', self.label)
         if gen in self._broken_gens or (self._aborted and self._gen == gen):
             raise threading.BrokenBarrierError
@@ -322,7 +371,11 @@ class CQueue:
             if inj and inj.get('thread') == ct.label and inj.get('op') == 'get' and inj.get('k') == ct.nget:
                 # the operator's Ctrl-C delivered while this thread waits in Queue.get() for the k-th time
                 raise KeyboardInterrupt('operator interrupt (injected by the harness)')
-            s.yield_op(Op('Queue.get', self, enabled=lambda: len(self._q) > 0))
+            timed = (not block) or timeout is not None
+            s.yield_op(Op('Queue.get', self, enabled=(lambda: len(self._q) > 0) if not timed else (lambda: True)))
+            if timed and not self._q:
+                s.log('get-timeout', self.label)
+                raise _queue_mod.Empty
             item = self._q.popleft()
             s.log('get', self.label, item)
             return item
@@ -495,7 +548,7 @@ def _start(self):
     conn = getattr(self, 'connection', None)
     peer = getattr(conn, 'peer_label', None)
     label = ('seat:' + peer) if peer else s.new_label('thread')
-    s.register(self, label)
+    s.register(self, label).parent = s.cur()
     s.log('start', label)
     self.daemon = True
     _real_start(self)
@@ -506,8 +559,8 @@ def _join(self, timeout=None):
     ct = getattr(self, '_sched_ct', None)
     if s is None or s.cur() is None or ct is None:
         return _real_join(self, timeout)
-    s.yield_op(Op('Thread.join', ct, enabled=lambda: ct.finished))
-    s.log('join', ct.label)
+    s.yield_op(Op('Thread.join', ct, enabled=(lambda: ct.finished) if timeout is None else (lambda: True)))
+    s.log('join' if ct.finished else 'join-timeout', ct.label)
 
 
 def _is_alive(self):
